@@ -275,3 +275,77 @@ CONTRACTS.append(pileup)
 
 
 from pyvc.core import Unsupported     # noqa: E402
+
+
+# --- chromosome_map.get_args: the per-chromosome entry point of merge_intervals / count_overlap (a grouped stream is passed instead of a table) -------
+# Every yield carries the chromosome's name, the positional arguments with the stream's slot replaced by that chromosome's data and every other
+# positional argument unchanged, and ALL keyword arguments of the call (`distance=d` reaches every chromosome).
+from pyvc.loops import LoopSpec, GeneratorSpec      # noqa: E402
+
+
+def _CM():
+    from bionumpy.streams.grouped import chromosome_map
+    return chromosome_map
+
+
+class _Grouped:
+    """a grouped stream: n pairs (name(j), data(j)); attribute_name is what grouped_stream objects carry"""
+
+    def __init__(self, st):
+        self.st = st
+
+    def getattr(self, ip, name, lineno):
+        if name == "attribute_name":
+            return "chromosome"
+        raise Unsupported("grouped stream attribute %s" % name)
+
+    def sym_rows(self, ip):
+        st = self.st
+        return st.n, (lambda j: (st.name(I(j)), st.data(I(j))))
+
+
+def _mk_get_args(label, positional, keywords):
+    """positional: shape string over 'S' (the grouped stream) and 'x' (plain); keywords: names of plain keyword arguments"""
+    si = [i for i, ch in enumerate(positional) if ch == "S"]
+
+    def setup(ctx):
+        st = St()
+        st.n = z3.Int("n_chromosomes")
+        st.name, st.data = z3.Function("chromosome_name", z3.IntSort(), z3.IntSort()), z3.Function("chromosome_data", z3.IntSort(), z3.IntSort())
+        st.plain = {i: z3.Int("arg%d" % i) for i, ch in enumerate(positional) if ch == "x"}
+        st.kw = {k: z3.Int("kw_" + k) for k in keywords}
+        st.selfv = SRec(_CM())
+        st.args = [tuple(_Grouped(st) if ch == "S" else st.plain[i] for i, ch in enumerate(positional)), dict(st.kw), list(si), [], [], []]
+        st.yields = 0
+
+        def inv(ip, env):
+            return [("one.call.per.chromosome.so.far", I(st.yields) == I(env.vars["_it"]))]
+
+        def havoc(ip, env):
+            st.yields = env.vars["_it"]
+        ctx.ip.loop_specs[("chromosome_map.get_args", 0)] = LoopSpec(inv, havoc)
+        return st
+
+    def on_yield(ip, st, v, node, env):
+        c = ip.ctx
+        j = env.vars["_it"]
+        chrom, a, kw = v
+        a = ip.concrete_items(a)
+        c.oblige("%s:yield.j.is.for.chromosome.j" % c.fname, I(chrom) == st.name(I(j)), "at_yield")
+        c.oblige("%s:yield.has.one.entry.per.positional.argument" % c.fname, z3.BoolVal(a is not None and len(a) == len(positional)), "at_yield")
+        for i, ch in enumerate(positional):
+            want = st.data(I(j)) if ch == "S" else st.plain[i]
+            got = a[i] if a is not None and i < len(a) else None
+            c.oblige("%s:yield.j.slot.%d.is.%s" % (c.fname, i, "the.chromosome's.data" if ch == "S" else "the.plain.argument"),
+                     (I(got) == want) if isinstance(got, (int, z3.ArithRef)) else z3.BoolVal(False), "at_yield")
+        c.oblige("%s:yield.j.carries.every.keyword.argument.of.the.call" % c.fname,
+                 z3.BoolVal(isinstance(kw, dict) and sorted(kw) == sorted(st.kw)) if not st.kw else
+                 And(*[(I(kw[k]) == st.kw[k]) if isinstance(kw, dict) and k in kw and isinstance(kw[k], (int, z3.ArithRef)) else z3.BoolVal(False) for k in st.kw]), "at_yield")
+        st.yields = conc(I(st.yields) + 1)
+
+    return Contract("C08.chromosome_map.get_args[%s]" % label, target=lambda: _CM().get_args, setup=setup, requires=lambda ctx, st: [st.n >= 0],
+                    ensures=lambda ctx, st, ret: [("one.call.per.chromosome", I(st.yields) == st.n)], generator=GeneratorSpec(on_yield),
+                    canaries=[("keyword arguments rebuilt from the stream entries only", "            yield chromosome, new_args, kwargs", "            yield chromosome, new_args, {k: kwargs[k] for k in stream_keys}")] if keywords else [])
+
+
+CONTRACTS += [_mk_get_args("merge_intervals(stream, distance=d)", "S", ("distance",)), _mk_get_args("f(stream, x)", "Sx", ()), _mk_get_args("f(x, stream, k=v, m=w)", "xS", ("k", "m"))]
